@@ -2405,3 +2405,7 @@ mutant("c08-f53-remove-by-id-alone", "C08", "C08-D12", "namespace.go",
        "	if registered, ok := n.sockets.get(socket.ID()); ok && registered != nil {")
 mutant("c08-f54-restored-session-stays", "C08", "C08-D13", "adapter/adapter_session_aware.go",
        "	delete(a.sessions, pid)\n	return session, true", "	return session, true")
+
+# F55
+mutant("c05-f55-disconnect-packet-while-pending", "C05", "C05-D12", "client_socket.go",
+       "	if s.Connected() {\n		s.debug.Log(\"Performing disconnect\", s.namespace)", "	if s.connectedOrConnectPending() {\n		s.debug.Log(\"Performing disconnect\", s.namespace)")
